@@ -19,6 +19,7 @@ from collections.abc import Mapping
 from collections.abc import Sequence
 from typing import Any
 
+from liquid2 import CachingDictLoader
 from liquid2 import DictLoader
 from liquid2.exceptions import LiquidError
 from liquid2.loader import TemplateSource
@@ -123,6 +124,16 @@ def snapshot(x: Any, depth: int = 0) -> Any:
 
 
 class MatterLoader(DictLoader):
+    def __init__(self, templates: dict[str, str], matter: dict[str, Any]) -> None:
+        super().__init__(templates)
+        self.matter = matter
+
+    def get_source(self, env: Any, template_name: str, **kw: Any) -> TemplateSource:
+        src = super().get_source(env, template_name, **kw)
+        return TemplateSource(src.source, src.name, src.uptodate, self.matter)
+
+
+class CachingMatterLoader(CachingDictLoader):
     def __init__(self, templates: dict[str, str], matter: dict[str, Any]) -> None:
         super().__init__(templates)
         self.matter = matter
@@ -238,6 +249,8 @@ def precedence_cases() -> list[dict[str, Any]]:
                         # must not insert the name into it (and the layers below must still be consulted)
                         if name == "v" and local_kind != "capture" and block_kind != "for":
                             cases.append({"name": name, "layers": sorted(layers, key=ORDER.index), "block": block_kind, "local": local_kind, "dd": True})
+                            # ... and the same subset served from a caching loader's cache (second and third request of the name)
+                            cases.append({"name": name, "layers": sorted(layers, key=ORDER.index), "block": block_kind, "local": local_kind, "cached": True})
                         # the same subset with ONE layer binding the name to nil: a nil binding is a binding
                         if name == "v" and local_kind != "capture":
                             for nl in sorted(layers & {"block", "local", "arg", "matter", "tglobal", "eglobal"}, key=ORDER.index):
@@ -276,15 +289,23 @@ def check_precedence(case: dict[str, Any], res: ShardResult | None) -> list[tupl
     # after the block: direct probe, included probe, lambda probe, lambda probe in a RENDERED partial (isolated scope),
     # then a lambda whose parameter has the probed name and which is left early (has), then the direct probe again
     src = pre + body + probe + "{% include 'probe' %}" + lprobe + "{% render 'lprobe' %}{% assign zz = one | has: " + n + " => true %}" + probe
+    # three isolated scopes deep, the outermost of them given a tag argument of the probed name: the innermost sees the
+    # data the render started with, through a partial and through a macro defined there
+    src += "{% render 'iso_a', " + n + ": 'TAGARG' %}"
     dd = (lambda m: defaultdict(list, m)) if case.get("dd") else (lambda m: m)
     matter = dd({n: val("matter", "MATTER")} if "matter" in layers else {})
     eglobals = dd({n: val("eglobal", "EGLOBAL"), "one": ["x"]} if "eglobal" in layers else {"one": ["x"]})
     tglobals = dd({n: val("tglobal", "TGLOBAL")}) if "tglobal" in layers else (dd({}) if case.get("dd") else None)
-    loader = MatterLoader({"main": src, "probe": "⟪{{ " + n + " }}⟫", "lprobe": "⟪{{ one | map: q => " + n + " | first }}⟫"}, matter)
+    tmpls = {"main": src, "probe": "⟪{{ " + n + " }}⟫", "lprobe": "⟪{{ one | map: q => " + n + " | first }}⟫", "iso_a": "{% render 'iso_b' %}",
+             "iso_b": "{% render 'probe' %}{% macro mq %}⟪{{ " + n + " }}⟫{% endmacro %}{% call mq %}"}
+    loader = (CachingMatterLoader if case.get("cached") else MatterLoader)(tmpls, matter)
     env = impl.make_env(loader=loader, globals=eglobals)
     before = [snapshot(matter), snapshot(eglobals), snapshot(tglobals)]
     try:
         t = env.get_template("main", globals=tglobals)
+        if case.get("cached"):
+            env.get_template("main", globals={"other": 1})
+            t = env.get_template("main", globals=tglobals)  # a cache hit, bound to this caller's globals
         args: dict[str, Any] = {"blockvals": [val("block", "BLOCK")]}
         if "arg" in layers:
             args[n] = val("arg", "ARG")
@@ -311,8 +332,9 @@ def check_precedence(case: dict[str, Any], res: ShardResult | None) -> list[tupl
     want_inside = w(layers)
     want_after = w([l for l in layers if l != "block"])
     want_isolated = w([l for l in layers if l not in ("block", "local", "counter")])
-    wants = [want_inside, want_inside, want_after, want_after, want_after, want_isolated, want_after]
-    where = ["inside-block", "inside-block-partial", "after-block", "after-block-partial", "lambda-free-name", "lambda-free-name-in-rendered-partial", "after-early-exit-lambda"]
+    wants = [want_inside, want_inside, want_after, want_after, want_after, want_isolated, want_after, want_isolated, want_isolated]
+    where = ["inside-block", "inside-block-partial", "after-block", "after-block-partial", "lambda-free-name", "lambda-free-name-in-rendered-partial", "after-early-exit-lambda",
+             "third-isolated-scope", "macro-in-second-isolated-scope"]
     if res is not None:
         res.outcomes.add(h64([want_inside, want_after, want_isolated]))
     if len(vals) != len(wants):
@@ -419,7 +441,7 @@ def replay(case: dict[str, Any]) -> list[dict[str, Any]]:
         for sig, c, exp, obs in run_program(generic, None):
             res.violation(sig, case, exp, obs)
     else:
-        c = {k: case[k] for k in ("name", "layers", "block", "local", "nil_layer", "dd") if k in case}
+        c = {k: case[k] for k in ("name", "layers", "block", "local", "nil_layer", "dd", "cached") if k in case}
         for sig, cc, exp, obs in check_precedence(c, None):
             res.violation(sig, case, exp, obs)
     return res.violations
